@@ -136,21 +136,33 @@ fn shader(seed: u64, i: usize) -> (String, Vec<(String, usize)>) {
     let mut decls: Vec<String> = vec![];
     // ---- vertex entries
     prelude.push_str("struct VIn0 { @location(0) a: vec3<f32>, @builtin(vertex_index) vi: u32, @location(4) b: vec2<u32> }\nstruct VIn1 { @location(9) c: f32 }\nstruct VInstance { @location(2) m: vec4<f32>, @builtin(instance_index) ii: u32 }\n");
+    // structs whose members are ALL builtins: still struct parameters, so they count for VertexEntry<n>
+    prelude.push_str("struct VIdxBoth { @builtin(vertex_index) vertex: u32, @builtin(instance_index) instance: u32 }\nstruct VIdxV { @builtin(vertex_index) v: u32 }\nstruct VIdxI { @builtin(instance_index) i: u32 }\n");
     for _ in 0..counts[0] {
         let name = next_name(&mut rng);
         let mut params: Vec<String> = vec![];
-        let mut structs = ["VIn0", "VIn1", "VInstance"].to_vec();
+        // (struct, carries vertex_index, carries instance_index)
+        let mut structs = [("VIn0", true, false), ("VIn1", false, false), ("VInstance", false, true), ("VIdxBoth", true, true), ("VIdxV", true, false), ("VIdxI", false, true)].to_vec();
         rng.shuffle(&mut structs);
         let n_struct = rng.below(4);
-        for (k, s) in structs.iter().take(n_struct).enumerate() {
-            params.push(format!("s{k}: {s}"));
+        // builtins must not repeat within one entry point: skip a struct that carries one already taken
+        let (mut has_v, mut has_i) = (false, false);
+        for (s, v, ii) in &structs {
+            if params.len() == n_struct {
+                break;
+            }
+            if (*v && has_v) || (*ii && has_i) {
+                continue;
+            }
+            params.push(format!("s{}: {s}", params.len()));
+            has_v |= *v;
+            has_i |= *ii;
         }
-        // builtins must not repeat within one entry point: only use those the chosen structs lack
-        let has = |s: &str| structs.iter().take(n_struct).any(|x| *x == s);
-        if !has("VIn0") && rng.chance(1, 2) {
+        // ... and loose builtin parameters only for those no chosen struct carries
+        if !has_v && rng.chance(1, 2) {
             params.push("@builtin(vertex_index) vidx: u32".into());
         }
-        if !has("VInstance") && rng.chance(1, 2) {
+        if !has_i && rng.chance(1, 2) {
             params.push("@builtin(instance_index) iidx: u32".into());
         }
         if rng.chance(1, 2) {
@@ -195,7 +207,7 @@ impl Property for C14 {
         "C14"
     }
     fn rule(&self) -> &'static str {
-        "Seeded shaders with 0-3 entry points per stage under mixed-case / underscore / non-ASCII names; compute sizes with 1-3 dimensions from literals and constants; fragment results: none, scalar/vector at @location(k) incl. k>0, builtins only, structs with sparse/unordered/descending locations and interleaved builtins, second_blend_source pairs; vertex parameters mixing struct inputs, builtins and loose @location values; oracle = naga EntryPoint data: ENTRY_{UPPER} constants with the exact name, {UPPER}_WORKGROUP_SIZE = naga's workgroup_size and create_{name}_pipeline targeting Some(name) with the module's own shader/layout, fragment {name}_entry asks for 1 + max written @location targets (0 if none; cross-checked with the generator's own location list), vertex {name}_entry returns VertexEntry<n> for n struct-typed binding-less parameters, vertex_state/fragment_state forward module, entry name, buffers/targets, constants."
+        "Seeded shaders with 0-3 entry points per stage under mixed-case / underscore / non-ASCII names; compute sizes with 1-3 dimensions from literals and constants; fragment results: none, scalar/vector at @location(k) incl. k>0, builtins only, structs with sparse/unordered/descending locations and interleaved builtins, second_blend_source pairs; vertex parameters mixing struct inputs (incl. structs whose members are all @builtin, alone and next to attribute structs), builtins and loose @location values; oracle = naga EntryPoint data: ENTRY_{UPPER} constants with the exact name, {UPPER}_WORKGROUP_SIZE = naga's workgroup_size and create_{name}_pipeline targeting Some(name) with the module's own shader/layout, fragment {name}_entry asks for 1 + max written @location targets (0 if none; cross-checked with the generator's own location list), vertex {name}_entry returns VertexEntry<n> for n struct-typed binding-less parameters, vertex_state/fragment_state forward module, entry name, buffers/targets, constants."
     }
 
     fn cases(&self, seed: u64, tier: Tier) -> Vec<Case> {
